@@ -22,7 +22,7 @@ type c13tx struct {
 	before []int // members that overwrite a key it only read
 }
 
-func verifC13() {
+func verifC13(extra bool) {
 	vrt.PermuteMaps(false)
 	e := vkit.NewEnv("c13", vkit.Genesis("0", "9", "5"), nil)
 	s := e.NewState("producer")
@@ -35,7 +35,25 @@ func verifC13() {
 		return []*protos.TxInput{vkit.In([]byte(id), off, from, a)}
 	}
 	var fam []c13tx
-	switch vrt.Choice("family", 6) {
+	nfam := 6
+	if extra {
+		nfam = 8
+	}
+	switch vrt.Choice("family", nfam) {
+	case 6: // two independent chains
+		fam = []c13tx{
+			{vkit.Tx("a1", in(string(root), 0, "A", nine), []*protos.TxOutput{vkit.Out("C", x, 0), vkit.Out("A", rest, 0)}), nil, nil},
+			{vkit.Tx("b1", in(string(root), 1, "B", five), []*protos.TxOutput{vkit.Out("C", five, 0)}), nil, nil},
+			{vkit.Tx("a2", in("a1", 0, "C", x), []*protos.TxOutput{vkit.Out("B", x, 0)}), []int{0}, nil},
+			{vkit.Tx("b2", in("b1", 0, "C", five), []*protos.TxOutput{vkit.Out("A", five, 0)}), []int{1}, nil},
+		}
+	case 7: // writer, two readers of its version, overwriter
+		fam = []c13tx{
+			{vkit.WithKey(vkit.Tx("w1", nil, nil), "bk", "k1", nil, 0, []byte("one")), nil, nil},
+			{vkit.WithKey(vkit.Tx("r1", nil, nil), "bk", "k1", []byte("w1"), 0, nil), []int{0}, []int{3}},
+			{vkit.WithKey(vkit.Tx("r2", nil, nil), "bk", "k1", []byte("w1"), 0, nil), []int{0}, []int{3}},
+			{vkit.WithKey(vkit.Tx("w2", nil, nil), "bk", "k1", []byte("w1"), 0, vrt.Bytes("v", 1)), []int{0}, nil},
+		}
 	case 5: // a reader of an absent key, the creator of that key, and the creator of another absent key
 		fam = []c13tx{
 			{vkit.WithKey(vkit.Tx("r1", nil, nil), "bk", "k1", nil, 0, nil), nil, []int{1}},
@@ -119,4 +137,5 @@ func verifC13() {
 	vkit.Same(vkit.Observe(s), vkit.Observe(rep), func(c bool, label string) { vrt.Assert(c, "replica-reaches-the-producers-state-"+label) })
 }
 
-func VerifC13Quick() { verifC13() }
+func VerifC13Quick()    { verifC13(false) }
+func VerifC13Thorough() { verifC13(true) }
